@@ -299,6 +299,7 @@ func (x *Unit) libCall(st *State, pc *preparedCall, name string, n int) ([]Val, 
 	case "github.com/pkg/errors.Cause":
 		r := x.uf("errcause", SIface, args[0].T)
 		x.assume(st, Eq(Eq(IfaceTyp(r), IntLit(0)), Eq(IfaceTyp(args[0].T), IntLit(0))))
+		x.assume(st, Imp(Eq(IfaceTyp(args[0].T), IntLit(0)), Eq(r, IfaceNil))) // Cause(nil) is nil
 		return one(r, rt(0))
 	case "errors.Is", "github.com/pkg/errors.Is":
 		return one(x.errIs(args[0].T, args[1].T), boolT)
